@@ -15,13 +15,13 @@ import Verif.Model.Constraints
       eng  = what the property allows the CA to answer: `deny` whenever vfy=nc;
       why  = present when the *model of the engine as coded* accepts although vfy=nc, i.e. the
              Lean model predicts a violation, with its cause:
-               d8:<kind>   permitted subtrees of that kind on two or more certificates (union)
-               rootdrop    the configured root is left out of the engine (key-id comparison)
                v4mapped    an IPv4-mapped IPv6 subtree is re-read as an IPv4 one by the engine
                other       none of these
+             (the former causes d8:<kind> and rootdrop are repaired: 4a0d6e3, 94a532b; should
+             the code allow such a name again the model says plain `eng=deny vfy=nc`)
 
   <level> = pdns;xdns;pip;xip;pem;xem;puri;xuri      lists: items joined by ',' or '-' if empty
-  <cert>  = subject~issuer~ski~aki~<level>
+  <cert>  = subject~issuer~ski~aki~<level>[~0|1]   (roots: last.CheckSignatureFrom(root) == nil)
   string = x<hex>; IP net = x<ip hex>/x<mask hex>; IP = x<hex>; URI = x<host>:x<split>|!:0|1
 -/
 open Verif Verif.Constraints
@@ -62,7 +62,8 @@ def level? (t : String) : Option Level :=
 
 def cert? (t : String) : Option Cert :=
   match t.splitOn "~" with
-  | [a, b, c, d, l] => do pure ⟨(← str? a), (← str? b), (← str? c), (← str? d), (← level? l)⟩
+  | [a, b, c, d, l] => do pure ⟨(← str? a), (← str? b), (← str? c), (← str? d), (← level? l), false⟩
+  | [a, b, c, d, l, g] => do pure ⟨(← str? a), (← str? b), (← str? c), (← str? d), (← level? l), (← bool? g)⟩
   | _ => none
 
 def lookup (kv : List (String × String)) (k : String) : Option String :=
@@ -79,9 +80,10 @@ def classS : Verdict → String
 def goS : GoV → String
   | .ok => "ok" | .nc => "nc" | .parse => "parse"
 
-/-- The engine whose answers stage `eng` compares with the code.
-    After the D8 fix this line becomes `validatePerCert chain n` (see `engine_eq_spec`). -/
-def engineUnderTest (chain : List Level) (n : Names) : Verdict := validate (New chain) n
+/-- The engine whose answers stage `eng` compares with the code: `constraints.New` + `Validate`
+    as they are since `fix:` 4a0d6e3 (before: `validate (New chain) n`). By `fixed_eq_percert`
+    this is `validatePerCert chain n`, and by `engine_eq_spec` the specification. -/
+def engineUnderTest (chain : List Level) (n : Names) : Verdict := validateF (NewF chain) n
 
 def names? (kv : List (String × String)) : Option Names := do
   let dns ← list? "," str? (← lookup kv "dns")
@@ -90,22 +92,10 @@ def names? (kv : List (String × String)) : Option Names := do
   let uris ← list? "," uri? (← lookup kv "uri")
   pure { dns, ips, emails := ems, uris }
 
-/-- number of certificates carrying permitted subtrees of a kind -/
-def nPermitted (k : Kind) (chain : List Level) : Nat :=
-  (chain.filter fun l => match k with
-    | .dns => !l.pDNS.isEmpty | .ip => !l.pIP.isEmpty
-    | .email => !l.pEmail.isEmpty | .uri => !l.pURI.isEmpty).length
-
-def why (full : List Level) (n : Names) : String :=
-  -- would the engine have refused had every configured root been part of it?
-  if validate (New full) n ≠ .allow then "rootdrop"
-  else match validatePerCert full n with
-  | .deny .notPermitted k => if nPermitted k full ≥ 2 then s!"d8:{kindS k}" else "other"
-  | .allow =>
-    -- every certificate's own engine accepts: the engine's matchers differ from the verifier's
-    if full.any (fun l => (l.pIP ++ l.xIP).any fun x => normalizeIP x.ip != x.ip) then "v4mapped"
-    else "other"
-  | _ => "other"
+/-- cause of a violation the model of the code *as it is* predicts (`vfy=nc` but allowed) -/
+def why (full : List Level) : String :=
+  if full.any (fun l => (l.pIP ++ l.xIP).any fun x => normalizeIP x.ip != x.ip) then "v4mapped"
+  else "other"
 
 def evalChain (kv : List (String × String)) : Option String := do
   let ints ← list? "|" cert? (← lookup kv "ints")
@@ -120,14 +110,14 @@ def evalChain (kv : List (String × String)) : Option String := do
     | false, .parse => GoV.parse
     | _, _ => GoV.ok   -- spec and verifier model disagree: flagged below
   if (specAccept full n) != (goVerify full n == .ok) then pure "spec-mismatch" else
-  let coded := match chainFor ints roots with
+  let coded := match chainForSig ints roots with
     | none => Verdict.allow
     | some ch => engineUnderTest (ch.map (·.nc)) n
   match v with
   | .nc =>
     -- the property: a name outside the constraints must not be signed (403, or the 500 of an
     -- unparsable rfc822Name met on the way, are both refusals)
-    if coded = .allow then pure s!"eng=deny vfy=nc why={why full n}"
+    if coded = .allow then pure s!"eng=deny vfy=nc why={why full}"
     else pure s!"eng={classS coded} vfy=nc"
   | v => pure s!"eng={classS coded} vfy={goS v}"
 
